@@ -125,7 +125,7 @@ func (commander *Commander) exec(ctx context.Context, parameters Parameters, scr
 		if err != nil {
 			return nil, nil, errors.Wrap(err, "locking accounts for tx processing")
 		}
-		unlock(ctx)
+		defer unlock(ctx)
 		verifhook.Yield(ctx, "exec.locked")
 
 		err = m.ResolveBalances(ctx, commander.store)
@@ -156,7 +156,16 @@ func (commander *Commander) exec(ctx context.Context, parameters Parameters, scr
 			log = log.WithIdempotencyKey(parameters.IdempotencyKey)
 		}
 
-		return executionContext.AppendLog(ctx, log)
+		chainedLog, done, err := executionContext.AppendLog(ctx, log)
+		if err != nil {
+			return nil, nil, err
+		}
+		// The account locks and the reference reservation (released by the defers
+		// above) must be held until the log is persisted: the store's balances and
+		// references do not reflect a log that is still queued.
+		<-done
+
+		return chainedLog, done, nil
 	})
 }
 
